@@ -29,14 +29,20 @@ CLAIMS = {
             'Every path of the real callVariant main loop (stubbed collaborators) is explored for every '
             'skip pattern, thread count and is_valid verdict: a rejected peptide never reaches the table '
             'and every accepted (peptide,label) pair reaches it exactly once; the canonical pool used for '
-            'filtering is digested with the command\'s own cleavage settings for all option values.',
+            'filtering is digested with the command\'s own cleavage settings for all option values; on ONE concrete '
+            'transcript (site-removing SNV + in-frame deletion) the real traversal reports no canonical peptide and nothing '
+            'outside the limits for miscleavage 0..1 (thorough 2-3) and ALL integer min/max lengths.',
             'Claimed: call-site dominance of the validity gate and same-settings pool plumbing. Per-transcript '
             'denylist equality with the reference digest is outside the claim (needs the graph pipeline).'),
     'C06': (True, CH,
             'The real call_variant_peptide loop is executed symbolically with the thread count as an '
             'unbounded symbolic integer and the skip pattern as symbolic booleans: the dispatched set, '
-            'order and table content are independent of --threads for N<=4 (thorough 6) transcripts.',
-            'Claimed: thread-count/batching independence and dispatch order. Process pools are replaced '
+            'order and table content are independent of --threads for N<=4 (thorough 6) transcripts; records gathered '
+            'through byte-offset pointers of several files in any order; on two concrete peptide graphs the traversal '
+            'result is the same for every iteration order of the node edge sets (order chosen by symbolic flags - the '
+            'hash-seed clause at the traversal stage).',
+            'Claimed: thread-count/batching independence, dispatch order, file grouping/order, raw vs index pool '
+            'parameters, set-order independence of the traversal on two fixed graphs. Process pools are replaced '
             'by a synchronous stub.'),
     'C07': (True, 'CrossHair symbolic execution with symbolic fault vectors + z3, per path',
             'Fault sequences are symbolic boolean vectors: for every subset of failing units (main, <=2 '
@@ -105,24 +111,32 @@ CLAIMS = {
             'merge classes (known_findings.txt).'),
     'C02': (True, CH,
             'Stage 1 of 5 only: every root-to-leaf path of the real variant graph spells the haplotype of exactly the '
-            'variants annotated on it, and never combines overlapping variants (same bounds as C01).',
-            'NARROW CLAIM: the later graph stages (where the unsound output quoted in the property lives) and the '
-            'timeout retry reducer are outside the claim.'),
+            'variants annotated on it, and never combines overlapping variants (same bounds as C01). '
+            'Plus: the timeout-retry reducer only lowers the two complexity limits; on ONE concrete transcript whose '
+            'variant bubble is pop-collapsed (--min-nodes-to-collapse 3) the real traversal reports exactly the '
+            'definitional digest for miscleavage 0..1 (thorough 2) and ALL integer min/max lengths.',
+            'NARROW CLAIM: codon alignment, translation and cleavage-graph construction are exercised only concretely '
+            '(on the fixed example) - a defect confined to them on other inputs is not detected.'),
     'C05': (True, 'CrossHair + z3 for implementation == reference model; direct z3 (QF_LIA) for monotonicity of the model',
             'Kernel level: the real miscleavage enumeration equals a reference model for unbounded symbolic limits '
             '(chains of 3, thorough 4 nodes); the model is monotone in miscleavage/min/max length for ALL integers (z3); '
-            'size predicates monotone; enabling W>F only adds sequences carrying W2F identifiers.',
-            'Kernel claim only: monotonicity of the whole callVariant output in added variants / GVF files needs the '
-            'graph pipeline and is outside the claim; nodes are duck-typed stand-ins.'),
+            'size predicates monotone; enabling W>F only adds sequences carrying W2F identifiers; pop-collapsed nodes use '
+            'no miscleavage. Traversal stage on CONCRETE graphs with SYMBOLIC limits: for a fixed small transcript the real call_variant_peptides equals the definitional digest for every miscleavage 0..1 (thorough 2-3) and ALL integer min/max lengths (so the output is a pure filter of one fixed set: monotone in each limit).',
+            'Kernel claim + one fixed transcript: monotonicity in added variants / GVF files for arbitrary inputs needs '
+            'the graph pipeline and is outside the claim; nodes are duck-typed stand-ins in the kernel conditions.'),
     'C08': (True, CH,
             'Transcript selection of callNovelORF equals the documented rule for all option values (biotype lists, '
             '--coding-novel-orf, --min-tx-length, proteome membership); every peptide passes the pool filter; ORF FASTA '
-            'coordinates translate to the listed sequence (end = start + 3*len, frame = start % 3).',
-            'PARTIAL: that the peptides equal the definitional digest of every ATG-ORF needs the traversal (outside).'),
+            'coordinates translate to the listed sequence (end = start + 3*len, frame = start % 3). Traversal stage on CONCRETE graphs with SYMBOLIC limits: for a fixed small transcript the real callNovelORF traversal equals the definitional digest for every miscleavage 0..1 (thorough 2-3) and ALL integer min/max lengths of every ATG-to-stop ORF in all three frames minus the canonical pool (nested ATGs, run-off ORF, '
+            'M-removed canonical twin).',
+            'PARTIAL: the peptide == definitional-digest equality is decided on ONE fixed non-coding transcript only.'),
     'C09': (True, CH,
             'W>F enumeration: exactly the 2^w - 1 substitution sets with headers naming the substituted positions; SECT '
-            'pseudo-variant placed at the transcript interval of the Sec codon with the gene coordinate in its id.',
-            'PARTIAL: Sec truncation inside the traversal and "only through these events" are outside the claim.'),
+            'pseudo-variant placed at the transcript interval of the Sec codon with the gene coordinate in its id. On ONE '
+            'concrete selenoprotein transcript the real call_alt_translation_main (graph built concretely, flags plumbed by '
+            'the real call) reports exactly the peptides arising only through Sec termination and/or W>F for each flag '
+            'combination, miscleavage 0..1 (thorough 2) and ALL integer min/max lengths; headers name only requested events.',
+            'PARTIAL: the end-to-end equality is decided on one fixed transcript; other transcripts only via the kernels.'),
     'C15': (True, CH,
             'STAR-Fusion, FusionCatcher and Arriba: convert -> shift to closest exon -> transcript mapping executed for '
             'real; the donor and acceptor parts denoted by the record equal the breakpoint-defined parts (incl. retained '
